@@ -222,4 +222,4 @@ def run(ctx):
     # (they stamp the file a path denotes), so the reader has to stat through links as well - and see one snapshot per command
     r6 = ctx.rule("R6", "the status that follows reads the modification times touch wrote: the file a path denotes (symlinks followed), existence and time from one stat")
     from .shared import import_rules
-    import_rules(ctx, r6, "C01", only={"R6"})
+    import_rules(ctx, r6, "C01", only={"R6", "R2"})   # R2: equal time stamps (what touch produces on coarse clocks) count as up to date
